@@ -69,6 +69,13 @@ func (l *queryLog) searchMemory(
 		// modifies is the client field.
 		e := entry.shallowClone()
 
+		// Re-apply the current ignore list, like it is done for the records
+		// read from the files, since it could have changed since the record
+		// was added.
+		if l.isIgnored(e.QHost) {
+			return true
+		}
+
 		var err error
 		e.client, err = l.client(e.ClientID, e.IP.String(), cache)
 		if err != nil {
@@ -82,6 +89,10 @@ func (l *queryLog) searchMemory(
 			)
 
 			// Go on and try to match anyway.
+		}
+
+		if e.client != nil && e.client.IgnoreQueryLog {
+			return true
 		}
 
 		if params.match(e) {
